@@ -213,7 +213,50 @@ func c17Child(outPath string) int {
 		bm.Add_bond([]string{"o1", "p0o1"})
 		return bm
 	}
+	// a simulation that runs to its end and then cannot format its outputs (a data type that cannot be
+	// exported, or one that does not exist) fails, and must release what it started like any other
+	convBad := 0
+	series("SinglePipelineSimulate-output-conversion-fails", func() {
+		convBad++
+		ty := []string{"signed", "float", "unsigned"}[convBad%3]
+		if _, err := dual().SinglePipelineSimulate(ty, []string{}, nil); (err == nil) != (ty == "unsigned") {
+			panic(fmt.Sprintf("SinglePipelineSimulate(%s): unexpected result %v", ty, err))
+		}
+	}, 1)
 	regSize := func() int { return len(bmnumbers.AllTypes) + len(bmnumbers.AllMatchers) + len(procbuilder.Allopcodes) }
+	// input literals in every spelling the number parser accepts: a finished simulation may register a
+	// type the first time it sees one, never again for the same type
+	withInput := func() *bondmachine.Bondmachine {
+		bm := newBM(16)
+		p, err := mkMachine(16, 1, 1, 1, 0, []string{"i2r", "r2owa", "j"}, "i2r r0 i0\nr2owa r0 o0\nj 0\n")
+		if err != nil {
+			panic(err)
+		}
+		addProc(bm, p)
+		bm.Add_input()
+		bm.Add_output()
+		bm.Add_bond([]string{"i0", "p0i0"})
+		bm.Add_bond([]string{"o0", "p0o0"})
+		return bm
+	}
+	for _, lit := range []string{"0fp<16.4>1.5", "0fp<16.04>1.5", "0fp<016.4>2.5", "0x1f", "0b101", "12"} {
+		if _, err := withInput().SinglePipelineSimulate("unsigned", []string{lit}, nil); err != nil {
+			fmt.Fprintf(os.Stderr, "SinglePipelineSimulate(input %s): %v\n", lit, err)
+			return 2
+		}
+		g0 := regSize()
+		enc.Encode(lifeEvent{Ev: "series", Kind: "retained-registries:input-literal:" + lit, G0: g0, Bound: 0})
+		done := 0
+		for _, target := range counts {
+			for done < target {
+				if _, err := withInput().SinglePipelineSimulate("unsigned", []string{lit}, nil); err != nil {
+					panic(err)
+				}
+				done++
+			}
+			enc.Encode(lifeEvent{Ev: "sample", N: done, G: regSize(), ByEntry: map[string]int{"bmnumbers.AllTypes": len(bmnumbers.AllTypes), "bmnumbers.AllMatchers": len(bmnumbers.AllMatchers), "procbuilder.Allopcodes": len(procbuilder.Allopcodes)}})
+		}
+	}
 	for _, ty := range []string{"fps8f2", "unsigned", "fxps8f3", "fps8f4"} {
 		if _, err := dual().SinglePipelineSimulate(ty, []string{}, nil); err != nil {
 			fmt.Fprintf(os.Stderr, "SinglePipelineSimulate(%s): %v\n", ty, err)
